@@ -16,6 +16,10 @@
 (*       per ref>>, filesok: BOOLEAN]                                      *)
 (* Values: 0 = absent, -3 = unparsable content, >0 = object id.            *)
 (*                                                                         *)
+(* A state with mode "retry" is a crash state continued by running the     *)
+(* same operation again (as it is, or after the stale lock files were      *)
+(* removed): it must satisfy RecoveryInv except that refs may have moved   *)
+(* on from the first attempt's old/new values.                             *)
 (* RecoveryInv must hold in every such state.  StepInv relates each state  *)
 (* to its predecessor: the ordering obligations (object before ref, pack   *)
 (* before index, new copy before old copy is removed, packed-refs before   *)
@@ -52,7 +56,7 @@ FilesOk(s)       == s.filesok
 
 Clause(s) ==
     IF ~FilesOk(s) THEN "HalfWrittenFileVisible"
-    ELSE IF ~RefOldOrNew(s) THEN "RefNeitherOldNorNew"
+    ELSE IF s.mode # "retry" /\ ~RefOldOrNew(s) THEN "RefNeitherOldNorNew"
     ELSE IF ~RefsReadable(s) THEN "RefNamesMissingObject"
     ELSE IF ~PrePreserved(s) THEN "ReachableObjectLost"
     ELSE "ok"
